@@ -26,6 +26,64 @@ Theorem C14_roundtrip : forall e w crlf bs, bytes_ok bs = true ->
 Proof. exact Proofs.Base64.roundtrip. Qed.
 Print Assumptions C14_roundtrip.
 
+(* ---- purity: the property is about the function from TEXT to result ----
+   The model decode_any : bytes -> result bytes is a Gallina function: its value is determined
+   by the text alone - not by earlier calls, not by which buffer holds the text, not by the
+   bytes before or behind the text in that buffer, and evaluating it changes nothing.  For the
+   model this needs no proof (f x = f x); what has to be TESTED is that the implementation
+   is such a function, and ops twice / reuse / conc of Run/C14.v do that: same buffer looked at
+   twice, one array refilled in place, spare capacity, goroutines.  What is proved here are the
+   model-level facts those ops rely on when they predict the implementation's answers. *)
+
+(* a window of an array shows the callee exactly the text, whatever surrounds it *)
+Theorem C14_pure_window : forall pre t post,
+  decode_any (window (length pre) (length t) (pre ++ t ++ post)) = decode_any t.
+Proof. exact Proofs.Base64.pure_window. Qed.
+Print Assumptions C14_pure_window.
+
+(* one array refilled in place any number of times (any offsets, any lengths that fit): what
+   the k-th call sees is the k-th text, so its answer is decode_any of that text and of
+   nothing that was in the array before *)
+Theorem C14_pure_reuse : forall steps b, steps_fit (length b) steps = true ->
+  map (fun wb => decode_any (fst wb)) (reuse_windows b steps) = map (fun s => decode_any (snd s)) steps.
+Proof. exact Proofs.Base64.pure_reuse. Qed.
+Print Assumptions C14_pure_reuse.
+
+(* and writing a text into its window leaves the rest of the array as it was *)
+Theorem C14_overwrite_outside : forall off t b, (off + length t <= length b)%nat ->
+  take off (overwrite off t b) = take off b /\
+  drop (off + length t) (overwrite off t b) = drop (off + length t) b.
+Proof. exact Proofs.Base64.overwrite_outside. Qed.
+Print Assumptions C14_overwrite_outside.
+
+(* Removing CR and LF commutes with the whole function: same acceptance, same bytes, same
+   error.  (So an implementation MAY strip line breaks first - from a copy.) *)
+Theorem C14_strip_crlf : forall t, decode_any (strip_nl t) = decode_any t.
+Proof. exact Proofs.Base64.decode_any_strip. Qed.
+Print Assumptions C14_strip_crlf.
+
+Theorem C14_strip_crlf_accepts : forall t bs, decode_any t = Ok bs <-> decode_any (strip_nl t) = Ok bs.
+Proof. exact Proofs.Base64.accepts_strip_iff. Qed.
+Print Assumptions C14_strip_crlf_accepts.
+
+(* Round trip with line breaks at ANY positions: [wrap_of s t] (Proofs/Base64.v) says that t is
+   s with CR / LF characters inserted anywhere (inductively: keep a character, or insert a CR
+   or LF); equivalently strip_nl t = s for CR/LF-free s.  All four encodings, all byte strings. *)
+Theorem C14_roundtrip_any_wrap : forall e bs t, bytes_ok bs = true ->
+  Proofs.Base64.wrap_of (encode e bs) t -> decode_any t = Ok bs.
+Proof. exact Proofs.Base64.roundtrip_any_wrap. Qed.
+Print Assumptions C14_roundtrip_any_wrap.
+
+Theorem C14_wrap_of_is_strip : forall s t, Proofs.Base64.no_nl s = true ->
+  (Proofs.Base64.wrap_of s t <-> strip_nl t = s).
+Proof. exact Proofs.Base64.wrap_of_is_strip. Qed.
+Print Assumptions C14_wrap_of_is_strip.
+
+(* "QUJD\r\nREVG\n" is such a wrap of the Std encoding of "ABCDEF" *)
+Example C14_wrap_of_example :
+  Proofs.Base64.wrap_of (encode Std [65; 66; 67; 68; 69; 70]) [81; 85; 74; 68; 13; 10; 82; 69; 86; 71; 10].
+Proof. exact Proofs.Base64.wrap_of_example. Qed.
+
 Theorem C14_never_panics : forall s site, decode_any s <> Panic site.
 Proof. exact Proofs.Base64.decode_any_never_panics. Qed.
 Print Assumptions C14_never_panics.
